@@ -1611,7 +1611,8 @@ class ResultsPage(object):
         self.pagecount = int(ceil(self.total / pagelen))
         self.pagenum = min(self.pagecount, pagenum)
 
-        offset = (self.pagenum - 1) * pagelen
+        # With no hits at all pagenum is 0; the (empty) page starts at 0
+        offset = max(0, (self.pagenum - 1) * pagelen)
         if (offset + pagelen) > self.total:
             pagelen = self.total - offset
         self.offset = offset
